@@ -324,8 +324,10 @@ def finish(res, harness, t0, level="model_checking"):
         h = hashlib.sha1((sig + json.dumps(mm["case"], sort_keys=True)).encode()).hexdigest()[:10]
         path = os.path.join(VERIF, "replays", "%s-%s.json" % (res.pid, h))
         os.makedirs(os.path.dirname(path), exist_ok=True)
-        json.dump({"property": res.pid, "family": fam, "sig": sig, "count": cnt, "detail": mm["detail"], "case": mm["case"]},
-                  open(path, "w"), indent=1)
+        rec = {"property": res.pid, "family": fam, "sig": sig, "count": cnt, "detail": mm["detail"], "case": mm["case"]}
+        if mm.get("ctx"):
+            rec["ctx"] = mm["ctx"]
+        json.dump(rec, open(path, "w"), indent=1)
         # isolation re-check on the real code
         if mm.get("noreplay"):
             reproduced = True
@@ -334,6 +336,12 @@ def finish(res, harness, t0, level="model_checking"):
             reproduced = r.returncode == 1
             if r.returncode not in (0, 1):
                 reproduced = None
+            if r.returncode == 0 and mm.get("ctx"):
+                # the case alone passes: state carried between calls?  replay the lines that preceded it in its process
+                r = run([harness, "one", "-ctx", path], stdout=subprocess.PIPE, stderr=subprocess.STDOUT, text=True)
+                reproduced = True if r.returncode == 1 else (False if r.returncode == 0 else None)
+                if reproduced:
+                    mm["detail"] = "[reproduced only with the preceding calls of its process: state carried between calls] " + mm["detail"]
         violations.append((sig, cnt, mm["detail"], path, reproduced))
     rc = 0
     for l in known_lines:
@@ -451,9 +459,21 @@ class Ctx:
                 start -= 1
             session = [json.loads(x) for x in lines[start:idx + 1]]
             ev = session[-1]
+            # context: the sessions recorded before it in the same process (used when the session alone does not
+            # reproduce: state carried from one call to a later one)
+            ctx, cur = [], []
+            for x in lines[:start]:
+                e = json.loads(x)
+                if e.get("op") == "reset" and cur:
+                    ctx.append(json.dumps({"session": cur}))
+                    cur = []
+                cur.append(e)
+            if cur:
+                ctx.append(json.dumps({"session": cur}))
+            ctx = ctx[-400:] + [json.dumps({"session": session})]
             res.mismatches.append((family, {"sig": "trace:%s:%s" % (family, ev.get("op")),
                                             "detail": "trace event %d (%s) rejected by %s: %s" % (rejected, ev.get("op"), trace_spec, json.dumps(ev)[:600]),
-                                            "case": {"session": session}}, 1))
+                                            "case": {"session": session}, "ctx": ctx}, 1))
             # drop the whole session and validate the rest
             end = idx + 1
             while end < len(lines) and json.loads(lines[end]).get("op") != "reset":
